@@ -34,6 +34,7 @@ type mgrNode struct {
 	Cut      bool   `json:"cut,omitempty"` // the manager cannot reach this (running) server; its own mysync can
 	Offline  bool   `json:"offline,omitempty"`  // offline_mode = ON
 	ReadOnly bool   `json:"readonly,omitempty"` // the master is read-only
+	ROOnly   bool   `json:"ro_only,omitempty"`  // ... with read_only = 1 but super_read_only = 0 (an operator's SET, a fence set under another configuration)
 	SS       string `json:"ss,omitempty"`       // the master's semi-sync side: "" = as configured | off (count as configured) | count2 (on, waits for 2) | off_count2
 }
 type mgrMaint struct {
@@ -174,6 +175,11 @@ func mgrHealth(app *App, w *vk.World, h string, kind string) *nodestate.NodeStat
 		ns.ReplicationSettings = nil
 	case "fsro":
 		ns.IsFileSystemReadonly = true
+	case "crashfail":
+		// the record of a server that restarted after a crash and does not answer (still in crash recovery, or the flag of
+		// an earlier crash with a ping that fails now)
+		ns = &nodestate.NodeState{CheckBy: h, CheckAt: time.Now(), PingOk: false,
+			DaemonState: &nodestate.DaemonState{StartTime: time.Now().Add(-time.Minute), RecoveryTime: time.Now().Add(-30 * time.Second), CrashRecovery: true}}
 	case "crash":
 		ns.DaemonState = &nodestate.DaemonState{StartTime: time.Now().Add(-time.Minute), RecoveryTime: time.Now().Add(-30 * time.Second), CrashRecovery: true}
 	}
@@ -238,7 +244,7 @@ func mgrRun(in mgrIn) mgrOut {
 					n.SSMaster, n.WaitCount = false, 2
 				}
 				if c.ReadOnly {
-					n.RO, n.SuperRO = true, true
+					n.RO, n.SuperRO = true, !c.ROOnly
 				}
 			}
 		} else {
